@@ -537,6 +537,11 @@ def _execute(ctx):
                 buy = side == "buy"
                 acc = o["acc"]
                 eligible = acc is None or (when > acc if o["from_handler"] else when >= acc)
+                if kind in ("market", "stop") and eligible and o["last"] is not None and o["last"].is_open \
+                        and not o["cancelled"]:
+                    V("C05", "fok-order-survived-bar", f"{kind} {side} order accepted at {acc} is still open after the bar of its "
+                                                       f"pair at {when} (volume {br.volume}) was processed: market and stop orders are "
+                                                       f"filled completely or closed by the first bar after acceptance")
                 trig = None
                 if kind == "market":
                     trig = True
@@ -687,6 +692,9 @@ def _execute(ctx):
                     lim = D(op["abs_lim"])
             if amt <= 0:
                 amt = unit(bp)
+            if bp == 18:
+                # use the low-order digits, keep magnitudes small enough for exact 28-digit arithmetic
+                amt = min(amt, D(10) ** 5) + D((op["fine"] + 1) * (op["amt"] + 7) * 998244353 % 10 ** 18).scaleb(-18)
             if amt > D(10) ** 9:
                 amt = D(10) ** 9          # keep every product within the 28-digit context basana computes in
             if edge:
@@ -1013,6 +1021,8 @@ def _execute(ctx):
                 else:
                     amt = q(D(op["amt"] + 1), p_)
             amt = q(amt, p_, decimal.ROUND_DOWN) if amt > 0 else amt
+            if p_ == 18 and amt > 0:
+                amt = min(amt, D(10) ** 5) + D((op["amt"] + 3) * 998244353 % 10 ** 18).scaleb(-18)
             if ak == "offgrid" or (scn.get("offgrid_loans") and amt > 0 and op["amt"] % 3 == 0):
                 # legal: basana does not validate loan amounts against the symbol precision. From here on the account may
                 # hold sub-precision amounts, so the clauses conditioned on on-grid loan amounts (C08 dust) are off.
@@ -1221,7 +1231,7 @@ def _execute(ctx):
         try:
             await d.run(stop_signals=[])
             ctx.outcome = "returned"
-        except Exception as x:
+        except (Exception, asyncio.CancelledError) as x:
             ctx.outcome = f"raised {type(x).__name__}: {x}"
         # ------------------------------------------------------------ end of run
         if ctx.outcome == "returned":
